@@ -30,16 +30,16 @@ package client
 
 //@ chanclass[C05.queue_carries_own_envelopes C01.queue_carries_own_envelopes C09.queue_carries_own_envelopes C13.queue_carries_own_envelopes C02.queue_carries_own_envelopes] client.handlers msg: m != nil && m.Id == tag(ch)
 
-//@ lock client.RpcMultiplexer.mutex teardown guards handlers, rErr
+//@ lock client.RpcMultiplexer.mutex teardown guards handlers, rErr closes client.handlers
 //@   inv[C01.registry C05.registry C13.registry C14.registry] forall id Int :: id in self.handlers ==>
-//@     | self.handlers[id] != nil && isclass(self.handlers[id], "client.handlers") && tag(self.handlers[id]) == id && !closed(self.handlers[id])
+//@     | self.handlers[id].ch != nil && isclass(self.handlers[id].ch, "client.handlers") && tag(self.handlers[id].ch) == id && !closed(self.handlers[id].ch) && self.handlers[id].gone != nil
 //@   inv[C09.failed_means_empty] self.rErr != nil ==> len(self.handlers) == 0
 
 //@ func client.(*RpcMultiplexer).registerHandler
 //@   requires[C05.registry C01.registry] c != nil && isclass(c, "client.handlers") && tag(c) == id && !closed(c)
-//@   requires closable(c)
+//@   requires closable(c) && gone != nil && isclass(gone, "client.signal")
 //@   owns c
-//@   ensures[C05.registered C09.refused_after_failure] result == nil ==> id in rm.handlers && rm.handlers[id] == c
+//@   ensures[C05.registered C09.refused_after_failure] result == nil ==> id in rm.handlers && rm.handlers[id].ch == c && rm.handlers[id].gone == gone
 //@   ensures[C09.refused_after_failure C14.refused_means_unregistered] result != nil ==> len(rm.handlers) == 0 && rm.rErr != nil
 
 //@ func client.(*RpcMultiplexer).unregisterHandler
@@ -51,18 +51,18 @@ package client
 //@   requires[C13.read_nonnil] rpc != nil
 //@   ensures[C01.at_most_one_delivery C05.at_most_one_delivery] ncalls("send") <= old(ncalls("send")) + 1
 //@   atcall[C05.deliver_to_owner C01.deliver_to_owner] send : tag(arg0) == rpc.Id && arg1 == rpc
-//@   ensures[C02.every_response_handed_over C01.every_response_handed_over C05.every_response_handed_over] atlock(rpc.Id in rm.handlers) ==> ncalls("send") == old(ncalls("send")) + 1
+//@   ensures[C02.every_response_handed_over C01.every_response_handed_over C05.every_response_handed_over] atlock(rpc.Id in rm.handlers) ==> ncalls("send") == old(ncalls("send")) + 1 || closed(atlock(rm.handlers[rpc.Id].gone))
 
 //@ func client.(*RpcMultiplexer).closeError
 //@   nopanic[C13.nopanic C09.nopanic]
 //@   loop 0 invariant[C09.close_all C05.registry] forall id Int :: id in rm.handlers ==>
-//@     | rm.handlers[id] != nil && isclass(rm.handlers[id], "client.handlers") && tag(rm.handlers[id]) == id && !closed(rm.handlers[id])
+//@     | rm.handlers[id].ch != nil && isclass(rm.handlers[id].ch, "client.handlers") && tag(rm.handlers[id].ch) == id && !closed(rm.handlers[id].ch) && rm.handlers[id].gone != nil
 //@   loop 0 invariant[C09.close_all] forall k Int :: visited(k) ==> !(k in rm.handlers)
 //@   loop 0 invariant[C09.close_all] rm.rErr == err && err != nil
 //@   loop 0 invariant[C09.all_waiters_woken] forall k Int :: atlock(k in rm.handlers) ==>
-//@     | (k in rm.handlers && rm.handlers[k] == atlock(rm.handlers[k])) || closed(atlock(rm.handlers[k]))
+//@     | (k in rm.handlers && rm.handlers[k].ch == atlock(rm.handlers[k].ch)) || closed(atlock(rm.handlers[k].ch))
 //@   ensures[C09.error_recorded] err != nil ==> rm.rErr == err && len(rm.handlers) == 0
-//@   ensures[C09.all_waiters_woken] err != nil ==> (forall k Int :: atlock(k in rm.handlers) ==> closed(atlock(rm.handlers[k])))
+//@   ensures[C09.all_waiters_woken] err != nil ==> (forall k Int :: atlock(k in rm.handlers) ==> closed(atlock(rm.handlers[k].ch)))
 
 //@ func client.(*RpcMultiplexer).readErrorIfDone
 //@   ensures[C09.reads_error] true
@@ -76,6 +76,8 @@ package client
 //@   requires header != nil && ctx != nil
 //@   requires forall j Int :: 0 <= j && j < len(statsHandlers) ==> statsHandlers[j] != nil
 //@   makechan 0 tag streamId class client.handlers
+//@   makechan 1 tag streamId class client.signal own
+//@   atcall[C11.owner_signals_before_it_waits_for_the_registry_lock] client.(*RpcMultiplexer).unregisterHandler : closed(gone)
 //@   atcall[C01.request_envelope C06.unary_request C05.fresh_id] (types.RpcReadWriter).Write :
 //@     | arg2 != nil && arg2.Id == streamId && arg2.Header == header && arg2.Body == body && arg2.Status == nil && arg2.Trailer == nil && arg2.Reset_ == nil && arg1 == ctx
 //@   atcall[C05.id_from_atomic_counter C01.id_from_atomic_counter] client.(*RpcMultiplexer).registerHandler : arg1 == streamId && streamId == lastret("sync/atomic.AddUint64")
@@ -95,17 +97,30 @@ package client
 //@   inline
 //@   nopanic[C13.nopanic C14.nopanic]
 //@   makechan 0 tag streamId class client.handlers
+//@   makechan 1 tag streamId class client.signal
 //@   atcall[C05.id_from_atomic_counter C02.id_from_atomic_counter] client.(*RpcMultiplexer).registerHandler : arg1 == streamId && streamId == lastret("sync/atomic.AddUint64")
 //@   atcall[C14.reply_queue_has_room C11.reply_queue_has_room] client.(*RpcMultiplexer).registerHandler : cap(arg2) == 1
 //@   atcall[C05.counter_only_incremented] sync/atomic.AddUint64 : arg1 == 1
 //@   ensures[C05.one_id_per_call] ncalls("sync/atomic.AddUint64") <= old(ncalls("sync/atomic.AddUint64")) + 1
 //@   ensures[C09.fail_fast C14.nothing_left_on_error] result.3 != nil ==> result.1 == nil && result.2 == nil && (bound("streamId") ==> !(streamId in rm.handlers))
 //@   ensures[C06.no_write_on_open_of_reader] ncalls("(types.RpcReadWriter).Write") == old(ncalls("(types.RpcReadWriter).Write"))
-//@   ensures[C05.fresh_registration] result.3 == nil ==> result.1 != nil && result.2 != nil && result.0 in rm.handlers && tag(rm.handlers[result.0]) == result.0
+//@   ensures[C05.fresh_registration] result.3 == nil ==> result.1 != nil && result.2 != nil && result.0 in rm.handlers && tag(rm.handlers[result.0].ch) == result.0
+
+// deferred closure of a unary call: signal "nobody reads the reply queue any more", then unregister
+//@ func client.(*RpcMultiplexer).CallUnaryMethod$1
+//@   inline
+
+// the stream's "gone" signal is closed at most once, whoever ends the stream first (sync.Once)
+//@ func client.(*RpcMultiplexer).NewStreamReadWriter$1$1
+//@   once
+//@   nopanic[C13.nopanic C14.nopanic]
+//@   captures gone != nil && closable(gone)
 
 // teardown closure: unregisters exactly this stream's id
 //@ func client.(*RpcMultiplexer).NewStreamReadWriter$1
 //@   nopanic[C14.nopanic]
+//@   captures gone != nil && closable(gone)
+//@   atcall[C11.owner_signals_before_it_waits_for_the_registry_lock] client.(*RpcMultiplexer).unregisterHandler : ncalls("(*sync.Once).Do") == old(ncalls("(*sync.Once).Do")) + 1
 //@   ensures[C14.teardown_unregisters] !(streamId in rm.handlers)
 
 // read closure: only this stream's channel, closed channel => error
@@ -132,9 +147,19 @@ package client
 
 //@ chanclass[C13.body_nonnil C02.body_nonnil] client.rCh msg: m != nil
 //@ chan H.client.clientStream.rCh class client.rCh
-//@ chan Mval.map_Luint64_Rchan_Pgoatorepo.Rpc class client.handlers
+//@ chan Mval.map_Luint64_Rclient.respHandler.ch class client.handlers
+//@ chan H.client.respHandler.ch class client.handlers
 // reply queues and the per-stream body queue are closed by their owners (closeError / unregister, the read loop)
-//@ chan Mval.map_Luint64_Rchan_Pgoatorepo.Rpc closable
+//@ chan Mval.map_Luint64_Rclient.respHandler.ch closable
+//@ chan H.client.respHandler.ch closable
+// the per-call "gone" signal: nothing is ever sent on it; closed by the call's owner only (never through the table)
+//@ chanclass client.signal msg: false
+//@ chan Mval.map_Luint64_Rclient.respHandler.gone class client.signal
+//@ chan H.client.respHandler.gone class client.signal
+//@ chan Mval.map_Luint64_Rclient.respHandler.gone owner_closed -
+//@ chan H.client.respHandler.gone owner_closed -
+//@ chan cell.Int._Pgithub.com_avos_io_goat_internal_client.RpcMultiplexer_.CallUnaryMethod.gone class client.signal
+//@ chan cell.Int._Pgithub.com_avos_io_goat_internal_client.RpcMultiplexer_.NewStreamReadWriter.gone class client.signal
 //@ chan H.client.clientStream.rCh closable
 //@ chan cell.Int._Pgithub.com_avos_io_goat_internal_client.RpcMultiplexer_.NewStreamReadWriter.respChan class client.handlers
 //@ objinv[C13.objinv C02.objinv] client.clientStream : isclass(self.rCh, "client.rCh")
